@@ -306,6 +306,21 @@ struct Q { x: u32, y: u32 }
   buf.data[5] = w;
 }
 """),
+("store_then_conditional_const", HDR + """
+@compute @workgroup_size(1) fn main() {
+  var x: u32;
+  x = buf.data[0];
+  if (buf.data[1] > 3u) { x = 50u; }
+  buf.data[2] = x;
+  var y: u32;
+  y = buf.data[3] + 1u;
+  switch (buf.data[4] & 1u) {
+    case 0u: { y = 60u; }
+    default: { }
+  }
+  buf.data[5] = y;
+}
+"""),
 ("store_then_store_in_nested_block", HDRI + """
 @compute @workgroup_size(1) fn main() {
   var a: i32;
